@@ -529,6 +529,14 @@ class Ops:
     def contains(self, it, cont, item):
         cont = it.split_kind(cont)
         c, x = cont.t, item.t
+        if ctor(it.refine(c)) == 'BytesV':
+            item = it.split_kind(item)
+            x = it.refine(item.t)
+            if ctor(x) == 'BytesV':
+                return z3.Contains(it.refine(c).arg(0), x.arg(0))
+            if ctor(x) == 'IntV':
+                return z3.Contains(it.refine(c).arg(0), z3.Unit(x.arg(0)))
+            it.raise_('TypeError')
         k = it.choose([V.is_StrV(c), vals.is_seq(c), V.is_DictV(c), V.is_SetV(c),
                        z3.Not(z3.Or(V.is_StrV(c), vals.is_seq(c), V.is_DictV(c), V.is_SetV(c)))], 'in')
         if k == 0:
@@ -548,9 +556,13 @@ class Ops:
             x = it.refine(item.t)
             if ctor(it.refine(x)) in ('StrV', 'ObjV'):
                 self.world.lazy_instantiate(it, c, vals.ks(it.refine(x)))
+            if it.mode != 'spec':
+                self.outcome(it, [(z3.Not(_hashable(x)), 'TypeError'), (_hashable(x), None)], 'in key')
             it.assume_axiom(vals.key_axiom(x))
             return z3.And(vals.is_key(x), z3.Select(V.dhas(c), vals.ks(x)))
         if k == 3:
+            if it.mode != 'spec':
+                self.outcome(it, [(z3.Not(_hashable(x)), 'TypeError'), (_hashable(x), None)], 'in elem')
             it.assume_axiom(vals.key_axiom(x))
             return z3.And(vals.is_key(x), z3.Select(V.selems(c), vals.ks(x)))
         if it.feasible(V.is_ObjV(c)):
